@@ -477,7 +477,7 @@ CONNECT) then a generated API call mix. Oracle: no panic, termination decided by
             Api::Json,
             Api::TextReader(7),
         ];
-        let endless = (0..15u8).flat_map(move |kind| apis.clone().into_iter().map(move |api| Case::Endless { kind, api }));
+        let endless = (0..18u8).flat_map(move |kind| apis.clone().into_iter().map(move |api| Case::Endless { kind, api }));
         Some(Box::new(
             alpha
                 .chain(endless)
@@ -655,6 +655,10 @@ CONNECT) then a generated API call mix. Oracle: no panic, termination decided by
                         None,
                         "endless:connect-refusal-chunked",
                     ),
+                    // interim responses without end: whatever the client does with a 1xx head, it does not consume heads forever
+                    15 => ("http://origin.test/", None, vec![vec![Ev::Endless(b"HTTP/1.1 100 Continue\r\n\r\n".to_vec())]], k16 + k8, None, "endless:interim-100-heads"),
+                    16 => ("http://origin.test/", None, vec![vec![Ev::Endless(b"HTTP/1.1 103 Early Hints\r\nLink: </a>; rel=preload\r\n\r\n".to_vec())]], k16 + k8, None, "endless:interim-103-heads"),
+                    17 => ("http://origin.test/", Some("http://proxy.test:3128"), vec![vec![Ev::Endless(b"HTTP/1.1 102 Processing\r\n\r\n".to_vec())]], k16 + k8, None, "endless:interim-102-heads-via-proxy"),
                     _ => (
                         "http://origin.test/",
                         None,
